@@ -167,11 +167,20 @@ sink_fields += [
     m("OE", "Empty", oneof=0),
     fld("PA", "bytes", oneof=1),
     fld("PB", "double", oneof=1),
-    m("EmbPtr", "Emb", embed=True),
+    # own fields whose names sort between the names of the children of the embedded messages (declared before them)
+    fld("EmbMiddle", "string"),
+    fld("VMid", "int64"),
+    # the proto name of an embedded field starts with a lower-case letter: it adds no path segment whatever it looks like
+    m("emb_ptr", "Emb", embed=True),
     m("EmbVal", "EmbV", embed=True, nullable="false", jsonTag=""),
     fld("CustomA", "string", customType="StrCustomA", nullable="false"),
     fld("CustomB", "string", customType="StrCustomB", card="repeated"),
     fld("CfgCustom", "string"),
+    # a configuration-made custom type whose name is a type expression: the suffixes key is the whole expression
+    fld("CfgCustomExpr", "string"),
+    # a configuration-made custom type with a package path and no suffixes entry of its own: the default suffix is the name
+    # without / and . ; suffixes entries for the tails of the name are other names and do not apply
+    fld("CfgCustomPath", "string"),
     fld("json_named", "string", jsonTag="renamed,omitempty"),
     fld("JsonDash", "string", jsonTag="-"),
     fld("subpackage", "string", comment=" import and package words\n"),
@@ -211,7 +220,7 @@ DEP_FILE = {"name": "dep/dep.proto", "package": "dep", "goPackage": "dpkg", "enu
 
 
 case = {
-    "request": {"deps": [DEP_FILE], "file": {"name": "x.proto", "package": "tpkg", "packageComment": " This package holds every shape\n",
+    "request": {"deps": [DEP_FILE], "file": {"name": "api/v1/x.proto", "package": "tpkg", "packageComment": " This package holds every shape\n",
                                      "enums": [{"name": "EnumOne", "values": [0, 1, 2, -1, 2147483647]}, {"name": "EnumTwo", "values": [0, 5]}],
                                      "messages": msgs}},
     "yaml": {
@@ -237,8 +246,11 @@ case = {
                                                      "github.com/hashicorp/terraform-plugin-framework/tfsdk.UseStateForUnknown()"]},
                           {"k": "Sink.CustomA", "v": ["github.com/hashicorp/terraform-plugin-framework/tfsdk.RequiresReplace()"]},
                           {"k": "Sink.InnerP.Name", "v": ["github.com/hashicorp/terraform-plugin-framework/tfsdk.UseStateForUnknown()"]}],
-        "customTypes": [{"k": "Sink.CfgCustom", "v": "CfgCustomC"}],
-        "suffixes": [{"k": "CfgCustomC", "v": "SfxCfgCustomC"}, {"k": "StrCustomB", "v": "SfxStrCustomB"}],
+        "customTypes": [{"k": "Sink.CfgCustom", "v": "CfgCustomC"}, {"k": "Sink.CfgCustomExpr", "v": "[]CfgCustomD"},
+                        {"k": "Sink.CfgCustomPath", "v": "example.com/lib/wrappers.CfgCustomP"}],
+        "suffixes": [{"k": "CfgCustomC", "v": "SfxCfgCustomC"}, {"k": "StrCustomB", "v": "SfxStrCustomB"},
+                     {"k": "[]CfgCustomD", "v": "SfxCfgCustomDList"}, {"k": "CfgCustomD", "v": "SfxWrongElement"},
+                     {"k": "CfgCustomP", "v": "SfxTailOne"}, {"k": "wrappers.CfgCustomP", "v": "SfxTailTwo"}],
         "injectedFields": [{"k": "Sink", "v": [{"name": "injected_id", "type": "github.com/hashicorp/terraform-plugin-framework/types.StringType",
                                                  "computed": True, "optional": False, "required": False,
                                                  "planModifiers": ["github.com/hashicorp/terraform-plugin-framework/tfsdk.UseStateForUnknown()"], "validators": []}]},
@@ -254,7 +266,9 @@ case = {
 meta = {"Roots": ["Sink", "Wrap", "Inner", "Empty"], "Injected": ["injected_deep", "injected_id"], "OneofGroups": None,
         "Hooks": [{"Suffix": "StrCustomA", "GoType": "StrCustomA", "Repeated": False},
                   {"Suffix": "SfxStrCustomB", "GoType": "[]StrCustomB", "Repeated": True},
-                  {"Suffix": "SfxCfgCustomC", "GoType": "string", "Repeated": False}],
+                  {"Suffix": "SfxCfgCustomC", "GoType": "string", "Repeated": False},
+                  {"Suffix": "SfxCfgCustomDList", "GoType": "string", "Repeated": False},
+                  {"Suffix": "examplecomlibwrappersCfgCustomP", "GoType": "string", "Repeated": False}],
         "CustomTys": ["StrCustomA", "StrCustomB"]}
 
 os.makedirs(f'{V}/corpus', exist_ok=True)
